@@ -135,6 +135,15 @@ pub fn position_deleted(v: &Vec<RecordHeader>) -> (r: Option<usize>)
     }
 { unimplemented!() }
 
+// `iter().rposition(p)`: the LAST index whose element satisfies p
+#[verifier::external_body]
+pub fn rposition_deleted(v: &Vec<RecordHeader>) -> (r: Option<usize>)
+    ensures match r {
+        Some(i) => i < v.len() && hdr_deleted(v@[i as int]) && (forall|j: int| i < j < v.len() ==> !hdr_deleted(v@[j])),
+        None => forall|j: int| 0 <= j < v.len() ==> !hdr_deleted(v@[j]),
+    }
+{ unimplemented!() }
+
 // ---- record accounting over the whole map (C15) -------------------------------------------
 // sum of the lengths of all version vectors. Uninterpreted, characterised by two ASSUMED
 // mathematical facts about a fold over a finite map (listed in the trusted base).
